@@ -153,6 +153,10 @@ add("ProbabilisticAL_rbf", P.ProbabilisticAL,
     lambda s, ml=NAN: P.ProbabilisticAL(metric="rbf", missing_label=ml, random_state=s),
     lambda c: dict(clf=_ctx_clf(c, "nb")), arbitrary_index_ok=True, independent=True, perm=True,
     model_arg="clf", lazy=True, domain=_nb_domain)
+add("ProbabilisticAL_rbf_dict", P.ProbabilisticAL,
+    lambda s, ml=NAN: P.ProbabilisticAL(metric="rbf", metric_dict={"gamma": "mean"}, missing_label=ml, random_state=s),
+    lambda c: dict(clf=_ctx_clf(c, "nb")), arbitrary_index_ok=True, independent=True, perm=True,
+    model_arg="clf", lazy=True, domain=_nb_domain)
 add("QBC_KL", P.QueryByCommittee, lambda s, ml=NAN: P.QueryByCommittee(missing_label=ml, random_state=s),
     lambda c: dict(ensemble=clf_bag(c["classes"], c.get("ml", NAN))), arbitrary_index_ok=True,
     model_arg="ensemble")
@@ -185,6 +189,9 @@ add("Badge", P.Badge, lambda s, ml=NAN: P.Badge(missing_label=ml, random_state=s
 add("ProbCover", P.ProbCover, lambda s, ml=NAN: P.ProbCover(missing_label=ml, random_state=s), kind="both",
     feat=False, lazy=True)
 add("ContrastiveAL", P.ContrastiveAL, lambda s, ml=NAN: P.ContrastiveAL(missing_label=ml, random_state=s),
+    lambda c: dict(clf=_ctx_clf(c)), arbitrary_index_ok=True, independent=True, model_arg="clf", lazy=True)
+add("ContrastiveAL_dict", P.ContrastiveAL,
+    lambda s, ml=NAN: P.ContrastiveAL(nearest_neighbors_dict={"n_neighbors": 3}, missing_label=ml, random_state=s),
     lambda c: dict(clf=_ctx_clf(c)), arbitrary_index_ok=True, independent=True, model_arg="clf", lazy=True)
 add("Clue", P.Clue, lambda s, ml=NAN: P.Clue(missing_label=ml, random_state=s),
     lambda c: dict(clf=_ctx_clf(c)), model_arg="clf", lazy=True, feat=False)
